@@ -36,7 +36,7 @@ contract(SR + '.issue_instant_ok', returns='Bool',
                                  'and NOW - epoch(ii) <= 86400 + self.timeslack)'),
                   ('C04-accept', 'implies(epoch(ii) - NOW < 86400 + self.timeslack and NOW - epoch(ii) < 86400 + self.timeslack, '
                                  'result is True)')],
-         raises={'Exception': 'not truthy(ii) or not parsable(ii)'},
+         raises={'ValueError': 'not parsable(ii)', 'AttributeError': 'not parsable(ii)', 'TypeError': 'not truthy(ii)'},
          modifies=[], clauses_from={'C04': ['C04-window', 'C04-accept']})
 
 # ---- C04: SessionNotOnOrAfter
@@ -117,3 +117,102 @@ contract(AR_ + '._bearer_confirmed', types={'data': _D}, returns='Bool',
          modifies=['self.came_from'],
          clauses_from={'C04': ['C04-nooa', 'C04-nb', 'C04-order', 'raises.ResponseLifetimeExceed', 'raises.ToEarly'],
                        'C05': ['C05-solicited']})
+
+
+# ================================================================================================ C06
+# The expected class per standard second-level code comes from the *documented naming* (Status + URI suffix,
+# case-insensitively), not from the table in the code: a swapped or missing table entry fails these clauses.
+def _expected_status_classes():
+    from pyvc import front
+    samlp = front.module_obj('saml2_tophat.samlp')
+    resp = front.module_obj('saml2_tophat.response')
+    by_lower = {n.lower(): n for n in vars(resp) if isinstance(vars(resp)[n], type)}
+    out = {}
+    for name in sorted(vars(samlp)):
+        if name.startswith('STATUS_') and name not in ('STATUS_SUCCESS', 'STATUS_REQUESTER'):
+            uri = getattr(samlp, name)
+            suffix = uri.rsplit(':', 1)[1]
+            cls = by_lower.get(('Status' + suffix).lower())
+            if cls:
+                out[uri] = cls
+    return out
+
+
+_SUCCESS = repr(__import__('pyvc.front', fromlist=['x']).module_obj('saml2_tophat.samlp').STATUS_SUCCESS)
+_ST = 'self.response.status'
+_TOP = 'self.response.status.status_code.value'
+_SEC_PRESENT = 'truthy(self.response.status.status_code.status_code)'
+_SEC = 'self.response.status.status_code.status_code.value'
+_NOT_OK = '(truthy(%s) and %s is not None and %s != %s)' % (_ST, 'self.response.status.status_code', _TOP, _SUCCESS)
+_exp = _expected_status_classes()
+_status_raises = {}
+for _uri, _cls in sorted(_exp.items()):
+    _status_raises[_cls] = '%s and %s and %s == %r' % (_NOT_OK, _SEC_PRESENT, _SEC, _uri)
+_status_raises['StatusError'] = ('not truthy(%s) or (%s and (not %s or not (%s)))'
+                                 % (_ST, _NOT_OK, _SEC_PRESENT, ' or '.join('%s == %r' % (_SEC, u) for u in sorted(_exp))))
+_status_raises['AttributeError'] = 'truthy(%s) and self.response.status.status_code is None' % _ST
+
+contract(SR + '.status_ok', returns='Bool',
+         requires=['self.response is not None'],
+         ensures=[('true', 'result is True'),
+                  ('C06-success', 'truthy(%s) and %s == %s' % (_ST, _TOP, _SUCCESS))],
+         raises=_status_raises, modifies=[],
+         clauses_from={'C06': ['C06-success'] + ['raises.' + c for c in _status_raises]})
+
+RE_ERR = __import__('pyvc.front', fromlist=['x']).cls_qual(__import__('re').error)
+ghost_decl = __import__('pyvc.state', fromlist=['ghost']).ghost
+ghost_decl('re_match', ['Val', 'Val'], 'Bool')      # E-REGEX: re.search(pattern, string) finds a match
+contract('re:search', trusted=True, pure=True, params=['pattern', 'string', 'flags'], defaults={'flags': 0},
+         ensures=['truthy(result) == re_match(pattern, string)'], raises={RE_ERR: 'True', 'TypeError': 'True'},
+         assumptions=['E-REGEX'])
+
+contract(SR + '._validate_destination', types={'self': "Inst('%s')" % AR_}, returns='Bool',
+         requires=['self.response is not None'],
+         lets={'dest': 'self.response.destination', 'rx': 'self.valid_destination_regex'},
+         ensures=[('C05-destination', 'implies(result is True and truthy(dest), '
+                                      '(rx is not None and re_match(rx, dest)) or (rx is None and dest in self.return_addrs))'),
+                  ('accept-absent', 'implies(not truthy(dest), result is True)'),
+                  ('accept-own', 'implies(truthy(dest) and rx is None and self.return_addrs is not None '
+                                 'and dest in self.return_addrs, result is True)')],
+         raises={RE_ERR: 'truthy(dest) and rx is not None', 'TypeError': 'truthy(dest)'},
+         modifies=[], clauses_from={'C05': ['C05-destination']})
+
+contract(SR + '._verify', types={'self': "Inst('%s')" % AR_},
+         returns="Opt(Inst('%s'))" % AR_,
+         requires=['self.response is not None'],
+         lets={'dest': 'self.response.destination', 'rx': 'self.valid_destination_regex', 'ii': 'self.response.issue_instant'},
+         ensures=[('self-or-none', 'result is None or result == self'),
+                  ('C06-version', "implies(result is not None, self.response.version == '2.0')"),
+                  ('C06-status', 'implies(result is not None, truthy(%s) and %s == %s)' % (_ST, _TOP, _SUCCESS)),
+                  ('C04-issue-instant', 'implies(result is not None, epoch(ii) - NOW <= 86400 + self.timeslack '
+                                        'and NOW - epoch(ii) <= 86400 + self.timeslack)'),
+                  ('C05-destination', 'implies(result is not None and truthy(self.asynchop) and truthy(dest), '
+                                      '(rx is not None and re_match(rx, dest)) or (rx is None and dest in self.return_addrs))'),
+                  ('C05-request-id', 'implies(result is not None and truthy(self.request_id) and truthy(self.in_response_to), '
+                                     'self.in_response_to == self.request_id)')],
+         raises={'RequestVersionTooLow': "self.response.version != '2.0'",
+                 'RequestVersionTooHigh': "self.response.version != '2.0'",
+                 'ValueError': 'True', 'TypeError': 'True', 'AttributeError': 'True',
+                 'AssertionError': 'True',
+                 'StatusError': 'not (truthy(%s) and %s is not None and %s == %s)'
+                                % (_ST, 'self.response.status.status_code', _TOP, _SUCCESS),
+                 RE_ERR: 'truthy(dest) and rx is not None'},
+         modifies=[],
+         clauses_from={'C06': ['C06-version', 'C06-status', 'raises.StatusError'], 'C04': ['C04-issue-instant'],
+                       'C05': ['C05-destination', 'C05-request-id']})
+
+
+# ================================================================================================ loading (C05, C02)
+contract(SR + '._clear', inline=True)
+
+contract(SR + '._postamble', returns="Inst('%s')" % SR,
+         ensures=[('self', 'result == self'),
+                  ('valid-or-cleared', 'self.response is None or (self.response == old(self.response) '
+                                       'and schema_valid(self.response) '
+                                       'and self.in_response_to == self.response.in_response_to)'),
+                  ('cleared-means-invalid', 'implies(self.response is None, not schema_valid(old(self.response)))')],
+         raises={'IncorrectlySigned': 'not truthy(self.response)',
+                 'ValueError': 'not schema_valid(self.response)', 'KeyError': 'not schema_valid(self.response)',
+                 'AttributeError': 'not schema_valid(self.response)', 'TypeError': 'not schema_valid(self.response)'},
+         modifies=['self.in_response_to', 'self.xmlstr', 'self.name_id', 'self.response', 'self.not_on_or_after'],
+         clauses_from={'C13': ['valid-or-cleared']})
